@@ -4,7 +4,7 @@
    Not proved (declared): the 11/9 OPT + 6/9 bound of the decreasing heuristics (explored by the harness oracle only). *)
 From Coq Require Import List Arith ZArith QArith Bool.
 From SV Require Import C16.KnapCore C16.Knapsack C16.BinPack C16.KnapSpec C16.BinSpec
-                       C16.KnapZProofs C16.KnapQProofs C16.KnapGridProofs C16.BinProofs.
+                       C16.KnapZProofs C16.KnapQProofs C16.KnapGridProofs C16.BinProofs C16.BinGridProofs.
 Import ListNotations.
 
 (* (1) feasibility + faithful objective of every answer of the rational model, both exits (DP answer that passed the
@@ -69,16 +69,14 @@ Theorem C16_bin_valid_exact_fit : forall sizes cap bf dec r,
 Proof. exact (fun sizes cap bf dec r => bin_pack_valid 0 sizes cap bf dec r (Qle_refl 0)). Qed.
 Print Assumptions C16_bin_valid_exact_fit.
 
-(* NOT PROVED (kept as a statement): with the code's eps = 1e-9 and sizes/capacity on a grid 1/d, d < 10^9, the
-   fit test `size - remaining <= eps` coincides with `size <= remaining` (remaining capacities stay on the grid),
-   so the clauses hold with slack 0.  Missing: the invariant "all remaining capacities are on the grid" through
-   fold_left place (the knapsack analogue is proved: C16_knap_feasible_value_grid).  The harness checks slack 0 on
-   every implementation output with the Coq checker bin_check 0. *)
-Definition C16_bin_valid_grid_full_statement : Prop :=
-  forall d sizes cap bf dec r,
+(* with the code's eps = 1e-9 and sizes/capacity on a grid 1/d, d < 10^9 (integers, dyadic numbers, decimals with up
+   to 8 places) the clauses hold without slack: loads <= capacity, total <= k * capacity (i.e. k >= ceil(total/capacity)) *)
+Theorem C16_bin_valid_grid : forall d sizes cap bf dec r,
   (d <? 1000000000)%positive = true -> on_gridb d cap = true -> forallb (on_gridb d) sizes = true ->
   bin_pack tol sizes cap bf dec = Some r ->
   bin_valid 0 sizes cap (basg r) (bobj r) (bstatus r).
+Proof. exact bin_pack_valid_grid. Qed.
+Print Assumptions C16_bin_valid_grid.
 
 (* the boolean specification checkers used by the harness on IMPLEMENTATION outputs are sound *)
 Theorem C16_knap_check_sound : forall values weights capacity o,
@@ -116,5 +114,6 @@ Proof. vm_compute. repeat split. Qed.
 Example C16_nonvacuous_bin :
   bobs_of (bin_pack tol [3 # 1; 0; 5 # 1; 2 # 1; 5 # 1] (5 # 1) false false) = Some ([0;0;1;0;2]%nat, 3%nat, FEASIBLE) /\
   bobs_of (bin_pack tol [11 # 10; 2 # 5] (3 # 2) true true) = Some ([0;0]%nat, 1%nat, OPTIMAL) /\
-  bin_check 0 [3 # 1; 0; 5 # 1; 2 # 1; 5 # 1] (5 # 1) (Some ([0;0;1;0;2]%nat, 3%nat, FEASIBLE)) = true.
+  bin_check 0 [3 # 1; 0; 5 # 1; 2 # 1; 5 # 1] (5 # 1) (Some ([0;0;1;0;2]%nat, 3%nat, FEASIBLE)) = true /\
+  (10 <? 1000000000)%positive = true /\ on_gridb 10 (3 # 2) = true /\ forallb (on_gridb 10) [11 # 10; 2 # 5] = true.
 Proof. vm_compute. repeat split. Qed.
